@@ -726,6 +726,10 @@ theorem checkAuthMon_quiet {s : Store} (hI : Inv s) (now : Nat) (m : Mocks) (sig
           rw [hlog', List.filter_append, List.filter_append, hV.2.2, hCf.2.2, hEf.2.2, hch]; simp)]
         rw [if_neg (by
           rw [hlog', List.filter_append, List.filter_append, hV.2.1, hCf.2.1, hEf.2.1]; simp)]
+        have hen : enforceAllowed m [] (expEnforcePols (chosenOf { rules := allRules s, now := now, mocks := m } (sigs.map Prod.fst) ctxs)) = true := by
+          rw [hch, ← enforce_pols]
+          exact (enforceAllowed_iff m auth (callsOf vs) []).mpr he
+        rw [if_neg (by simp [hen])]
 
 /-! ### the enforce calls an accepted check reports (budgets of the mock policies) -/
 
